@@ -114,7 +114,10 @@ class Box:
                 stride = strides[1]
                 skirt_top_remainder = skirt[0] % upscaling_factor
 
-                total_stride = stride * (new_end_coord[-3] - new_start_coord[-3] - 1)
+                # the last OFM row may lie beyond the IFM height (e.g. a fused PAD with an even kernel): the number of
+                # strides taken must be counted from the unclipped end
+                end_for_stride = original_end_coord[-3] if upscaling_factor == 1 else new_end_coord[-3]
+                total_stride = stride * (end_for_stride - new_start_coord[-3] - 1)
                 new_start_coord[-3] = new_start_coord[-3] * stride - skirt[0] + skirt_top_remainder
 
                 pad_top = max(0, 0 - new_start_coord[-3]) + skirt_top_remainder
